@@ -36,7 +36,7 @@ def gen_records(rng, size, kind):
         else:
             ln = rng.randint(1, max(1, (size - pos) // 2 + 1))
         stop = min(size, pos + ln)
-        v = {"int": rng.randint(-3, 9), "float": rng.choice([0.5, 1.5, 2.3, 0.9, -1.25, 3.0, 0.1]), "bool": True}[kind]
+        v = {"int": rng.randint(-3, 9) if rng.random() < 0.97 else rng.choice([3_000_000_000_000_001, -(2 ** 55) - 1, 2 ** 53 + 1]), "float": rng.choice([0.5, 1.5, 2.3, 0.9, -1.25, 3.0, 0.1]), "bool": True}[kind]
         recs.append((pos, stop, v))
         if rng.random() < 0.15:
             break
@@ -223,6 +223,21 @@ def run(ctx):
                     bg, _ = lazy_selection(mk_bg, flat, r, lambda: (names[0], 0, 1, 1))
                     ctx.count("lazy_selection_operands")
                 ga = genome.get_track(bg)
+                if flat and r.random() < 0.3:
+                    # the same bedGraph as a stream of two chunks: the array it builds has the same records and the same reductions on every chromosome,
+                    # also on chromosomes after the last one that has records
+                    from bionumpy.streams import NpDataclassStream
+                    cutp = r.randint(0, len(flat))
+                    mk_st = lambda: NpDataclassStream(iter([c_ for c_ in (mk_bg(flat[:cutp]), mk_bg(flat[cutp:])) if len(c_)]), dataclass=BedGraph)
+                    def recs_of(dd):
+                        dd = dd.compute() if hasattr(dd, "compute") and not hasattr(dd, "chromosome") else dd
+                        return [(c_, a_, b_, v_) for c_, a_, b_, v_ in zip([str(x) for x in dd.chromosome.tolist()], np.asarray(dd.start).tolist(), np.asarray(dd.stop).tolist(), np.asarray(dd.value).tolist()) if v_ != 0]
+                    got_st = recs_of(genome.get_track(mk_st()).get_data())
+                    exp_st = recs_of(ga.get_data())
+                    ctx.check("streamed-construction", got_st == exp_st, "streamed-track/records-differ-from-in-memory-track", "bedGraph streamed in two chunks gives records %r, in memory %r" % (got_st[:4], exp_st[:4]), {"sizes": sizes, "records": flat, "cut": cutp, "got": got_st[:12], "expected": exp_st[:12]}, (tuple(sizes.items()), tuple(flat), cutp))
+                    st_sum = bnp.compute((genome.get_track(mk_st()) * 2 + 1).sum())
+                    exp_sum = sum(float((d[n] * 2 + 1).sum()) for n in names)
+                    ctx.check("streamed-construction", abs(float(st_sum) - exp_sum) <= 1e-6 * max(1.0, abs(exp_sum)), "streamed-track/sum(t*2+1)-differs-from-dense", "sum(t*2+1) on the streamed track = %r, dense %r" % (float(st_sum), exp_sum), {"sizes": sizes, "records": flat, "cut": cutp}, (tuple(sizes.items()), tuple(flat), cutp, "sum"))
             tracks.append(ga)
             denses.append(d)
         nrec = sum(len(v) for recs in recs_all for v in recs.values())
@@ -278,7 +293,11 @@ def run(ctx):
             cat = np.concatenate([np.asarray(exp[n]) for n in names])
             # reductions
             s = np.sum(res)
-            ctx.check("sum", bool(np.isclose(float(s), float(cat.sum()), rtol=1e-12, atol=1e-12)), "np.sum", "np.sum(%s) = %r, dense %r" % (txt, s, cat.sum()), dict(wit, expr=txt, got=float(s), expected=float(cat.sum())), (key, txt, "sum"))
+            exact_int = cat.dtype.kind in "iub" and isinstance(s, (int, np.integer))
+            same_sum = (int(s) == int(cat.sum())) if cat.dtype.kind in "iub" else bool(np.isclose(float(s), float(cat.sum()), rtol=1e-12, atol=1e-12))
+            if cat.dtype.kind in "iub" and not isinstance(s, (int, np.integer, bool, np.bool_)):
+                same_sum = same_sum and float(s) == float(int(cat.sum())) and abs(int(cat.sum())) < 2 ** 53      # an integer array sums to an integer (exactly)
+            ctx.check("sum", same_sum, "np.sum", "np.sum(%s) = %r, dense %r" % (txt, s, cat.sum()), dict(wit, expr=txt, got=float(s), expected=float(cat.sum())), (key, txt, "sum"))
             if cat.dtype != bool:
                 lo, hi = float(cat.min()), float(cat.max())
                 if hi > lo:
